@@ -177,6 +177,27 @@ def do_shared(case):
     return {'shared': shared, 'fresh': fresh}
 
 
+def do_modelparam(case):
+    """C19: the optimised parameter is a parameter of the coalescent MODEL (Beta alpha / Dirac psi); with state-space caching the
+    shared state space must be rebuilt for every value the optimiser tries, however close to the previous one"""
+    if case['family'] == 'beta':
+        mk = lambda v: pg.Coalescent(n=case['n'], model=pg.BetaCoalescent(alpha=v), parallelize=False)
+    else:
+        mk = lambda v: pg.Coalescent(n=case['n'], model=pg.DiracCoalescent(psi=v, c=2.0), parallelize=False)
+    truth = mk(case['truth'])
+    obs = [truth.tree_height.mean, truth.total_branch_length.mean, truth.tree_height.var]
+    loss = lambda c, o: float((c.tree_height.mean - o[0]) ** 2 + (c.total_branch_length.mean - o[1]) ** 2 + (c.tree_height.var - o[2]) ** 2)
+    out = {}
+    for cache in (True, False):
+        inf = pg.Inference(bounds={'v': tuple(case['bounds'])}, coal=lambda v: mk(v), loss=loss, observation=obs, x0={'v': case['x0']},
+                           n_runs=1, parallelize=False, pbar=False, seed=case['seed'], cache=cache)
+        inf.run()
+        out['cache_on' if cache else 'cache_off'] = {'v': float(inf.params_inferred['v']), 'loss': float(inf.loss_inferred),
+                                                      'loss_at': float(loss(mk(float(inf.params_inferred['v'])), obs))}
+    out['truth'] = case['truth']
+    return out
+
+
 def main():
     pl = json.load(sys.stdin)
     out = []
@@ -184,7 +205,7 @@ def main():
         try:
             with warnings.catch_warnings():
                 warnings.simplefilter('ignore')
-                out.append(do_shared(case) if pl.get('mode') == 'shared' else do_case(case))
+                out.append(do_shared(case) if pl.get('mode') == 'shared' else (do_modelparam(case) if pl.get('mode') == 'modelparam' else do_case(case)))
         except Exception as e:
             import traceback
             out.append({'error': type(e).__name__ + ': ' + str(e)[:300] + traceback.format_exc()[-1000:]})
